@@ -10,6 +10,11 @@ import vplib
 
 
 def main():
+    # case generation iterates over sets and dicts of strings in places: pin the string hash so that
+    # a given VERIF_SEED replays the same cases in every process
+    if os.environ.get("PYTHONHASHSEED") != "0":
+        os.environ["PYTHONHASHSEED"] = "0"
+        os.execv(sys.executable, [sys.executable] + sys.argv)
     ap = argparse.ArgumentParser()
     sub = ap.add_subparsers(dest="cmd", required=True)
     c = sub.add_parser("check")
